@@ -9,7 +9,9 @@ def term_abs(term):
         return ["1"]
     if cls == "NegatedIntercept":
         return ["0"]
-    return sorted(str(c.name) for c in term.components)
+    # a back-quoted variable whose name is not an identifier is written with its back-quotes: `f(x, 2)` (a column)
+    # is not the call f(x, 2)
+    return sorted(("`%s`" % c.name) if type(c).__name__ == "Variable" and not str(c.name).isidentifier() else str(c.name) for c in term.components)
 
 
 def model_abs(model):
